@@ -42,6 +42,7 @@ type Step struct {
 	Host int   `json:"host,omitempty"`
 	Vs   []int `json:"vs,omitempty"`
 	Acc  []int `json:"acc,omitempty"`
+	V    int   `json:"v,omitempty"`
 }
 
 // Scenario is a configuration plus environment steps.
